@@ -149,3 +149,26 @@ CLAIMS["C14"] = dict(
     note="Assumes C-locale isalpha and that readers keep exactly the isalpha characters (decided under C04).",
     technique="who-may-read over the call graph + constant evaluation of the alphabet constructors",
     design_ref="DESIGN.md section 3, C14 (R14a-R14c)")
+
+CLAIMS["C16"] = dict(
+    text=("Decides that there is no channel from one library call to the next: every file-scope variable and function-local "
+          "static of the library is const or only assigned compile-time constants; kalign_run re-establishes the OpenMP "
+          "thread count from its own parameter before anything that opens a parallel region; every constructor sets every "
+          "field that is read later (or a verified later phase does), so no stale heap is read; objects acquired into locals "
+          "by the API functions and their helpers are released or handed over on every CFG path to every exit (failure exits "
+          "for the functions that own on failure; input-caused failure edges only); nothing reachable from any API function "
+          "reads a clock, a random source, or pointer values as data."),
+    note=("Does not decide allocator state / fragmentation effects; libgomp's thread pool is excluded by the statement. "
+          "Failure edges that only an allocation failure or an argument precondition can take are outside the fault model."),
+    technique="global/static write enumeration, constructor completeness, CFG typestate (acquire/release/hand-over), call-graph reachability",
+    design_ref="DESIGN.md section 3, C16 (R16a-R16e)")
+
+CLAIMS["C17"] = dict(
+    text=("Decides two structural clauses: both alignments are sorted by the same (name, checksum) order before pairing, and "
+          "compare_pair receives rows (i,j) of the reference with rows (i,j) of the test over exactly the pairs 0<=i<j<numseq, "
+          "each with its own alignment length; the stored score is 100 * a / b where, by reaching definitions, a sums exactly "
+          "the counters incremented in compare_pair's comparison loops and b exactly those incremented while scanning the "
+          "first pair of rows - which the caller fills from the reference parameter - and no test-side counter."),
+    note="Does not decide that the counters count the stated relations (index arithmetic in compare_pair) nor the 0..100 range.",
+    technique="CFG dominance + argument pairing + reaching definitions + counter classification by scanned parameters",
+    design_ref="DESIGN.md section 3, C17 (R17a-R17b)")
